@@ -690,6 +690,20 @@ def gen(rng, tier):
                         yield _line(cls, cur, [f"set {rng.choice('01')} r:{a},{b},{c}"])
                         if rng.random() < 0.5:
                             yield _line(cls, cur, [f"invert r:{a},{b},{c}"])
+    # ---- 1b. set / invert over ranges whose ends sit at the boundaries (first / last element 0, 1, n-1, n)
+    for n in range(1, 13):
+        cur = rand_bits(rng, n)
+        cls = classes[n % 2]
+        for c in (1, 2, 3):
+            for stop in (-2, -1, 0, 1, 2):
+                for start in (n - 1, n, n - 2):
+                    yield _line(cls, cur, [f"set {rng.choice('01')} r:{start},{stop},{-c}"])
+            for start in (-1, 0, 1):
+                for stop in (n - 1, n, n + 1):
+                    yield _line(cls, cur, [f"set {rng.choice('01')} r:{start},{stop},{c}"])
+            yield _line(cls, cur, [f"invert r:{n - 1},-1,{-c}"])
+            yield _line(cls, cur, [f"set 1 r:{-n},0,{c}", f"set 0 r:-1,{-n - 1},{-c}"])
+            yield _line(cls, cur, [f"setslice None None {-c} i:1", f"setslice None None {c} i:0", f"setslice {n - 1} 0 {-c} i:1"])
     # ---- 2. slice assignment / deletion: all (start, stop, step) on small lengths
     for n in range(0, (6 if big else 4) + 1):
         cur = _pat(n)
